@@ -453,10 +453,10 @@ func TestVerifC02(t *testing.T) {
 			cs.Add(j.idx, r.term, r.desc, true, r.tags...)
 		}
 		// the number of yield points depends on the mount order of the process (2 volumes): use a
-		// static upper bound (3 per Compare, then Touch (5) or WriteBlock (5 + writes)) and let runs
+		// static upper bound (3 per Compare, then Touch (5) or WriteBlock (9 + writes)) and let runs
 		// that have fewer points report "skipped"; the job list must not depend on this run
 		_ = r.npoints
-		np := 3*len(sc.Ro) + 5 + (sc.Size+32767)/32768
+		np := 3*len(sc.Ro) + 9 + (sc.Size+32767)/32768
 		for k := 0; k < np; k++ {
 			jobs = append(jobs, job{sc: sc, mode: "kill", k: k})
 			jobs = append(jobs, job{sc: sc, mode: "cancel", k: k})
